@@ -97,8 +97,8 @@ def first_edit_history(seed):
     g.rn, g.cn, g.sense = list(lp["rname"]), list(lp["cname"]), list(lp["sense"])
     g.namectr = 100
     g.bnd = [[qstr(lp["lo"][j]), qstr(lp["up"][j])] for j in range(lp["n"])]
-    fmt = r.choice(["MPS", "MPS", "LP"]) if False else "MPS"      # (LP would reorder the columns by first appearance)
-    for ln in lpfam.via_file_cmds("fe_%d" % seed):
+    fmt = "LP" if r.random() < .35 else "MPS"      # sparse_cover has every column in the objective and no ranged row: the LP reader keeps the order
+    for ln in lpfam.via_file_cmds("fe_%d" % seed, "h0", fmt):
         g.emit(ln)
     g.emit("dump h0")
     if r.random() < .5:
